@@ -50,6 +50,8 @@ def oracle(tr):
             stalled_at.pop(c, None)
         if op[0] == "unstall" and op[1] in stalled_at:
             since = stalled_at.pop(op[1])
+            if any(tr.ops[j][0] == "raw" and tr.ops[j][1] == op[1] for j in range(i)):
+                continue        # (a client that has written raw bytes is watched for a hang-up by reading its socket: it is not "not reading")
             late = {}
             for j in range(since + 1, i):
                 if tr.ops[j][0] == "send":
@@ -77,7 +79,7 @@ PROFILES = [
                                     "max_conns": 4, "big": (4096, 0.2)}, {"maxmsg": 4096, "rules": 8, "names": 4}),
     # clients that stop reading while subscribed to broadcasts: what the bus queues for them is bounded (max_outgoing_bytes holds for every copy,
     # addressed or not), and what they find when they read again is what the model says was queued
-    ("stalled-subscribers", {"weights": {"stall": 6, "unstall": 5, "signal": 22, "addmatch": 12, "call": 8, "request": 5, "hostile": 4, "close": 2, "connect": 5,
+    ("stalled-subscribers", {"weights": {"stall": 6, "unstall": 5, "signal": 22, "addmatch": 12, "call": 8, "request": 5, "close": 2, "connect": 5,
                                          "reply": 4}, "max_conns": 4, "no_eavesdrop": True}, {"outgoing": 20000}),
 ]
 
